@@ -2,9 +2,11 @@
 from ..rules_shape import floor_a, const_agree
 from ..rules_tz import floor_b, parse_order, find_key
 from ..e5 import run_e5
+from ..rules_dep import run_dep
 
 
 def run(ctx, rep):
+    run_dep(ctx, rep, "C03")
     prog = ctx.prog("Q")
     rep.notes.append("Does not decide agreement with tzdata, the binary search, POSIX rule evaluation or fattening.")
     floor_b(rep, prog)
